@@ -14,6 +14,7 @@ cp /repo/go.sum harness/go.sum 2>/dev/null || true
 ./harness/bin/vh tgen-compat "$PWD/lean/JSight/Generated/CompatTable.lean" >/dev/null
 ./harness/bin/vh tgen-kinds "$PWD/lean/JSight/Generated/KindMatrix.lean" >/dev/null
 ./harness/bin/vh tgen-sync "$PWD/lean/JSight/Generated/SyncFacts.lean" >/dev/null
+./harness/bin/vh tgen-panics "$PWD/lean/JSight/Generated/PanicFacts.lean" >/dev/null
 (cd lean && lake build JSight jsight-model 2>&1 | grep -E "error|✖|Build completed" || true)
 test -x lean/.lake/build/bin/jsight-model
 echo setup-ok
